@@ -26,6 +26,16 @@ def _asym(M, shape):
 class ESP:
     function = "gbasis.evals.electrostatic_potential.electrostatic_potential"
     sparse = True
+    fp = True  # the same contract on the unmodified float64 code (bounded), incl. points 1e-6 .. 1e-4 bohr from a nucleus
+    fp_nsamp = (2, 6)  # that sits a few bohr from the origin (where a distance formula that cancels loses all accuracy)
+
+    def fp_shapes(self, tier):
+        return [dict(types=["cartesian", "cartesian"], nuc=1, npts=1, transform=None, thr="zero", near=True),
+                dict(types=["cartesian", "spherical"], nuc=2, npts=1, transform="rect", thr="zero", near=True),
+                dict(types=["cartesian", "cartesian"], nuc=2, npts=1, transform=None, thr="pos")]
+
+    def fp_domain_for(self, shape):
+        return {"real": 3.0, "by_prefix": {"near": (1e-6, 1e-4)}, "zero_prob": 0.0}
 
     def shapes(self, tier):
         out = []
@@ -56,7 +66,8 @@ class ESP:
         if N == 1:
             rows = []
             for a in range(A):
-                rows.append(points[0] if a in co else M.array(points[0] - M.vec("D%d" % a, 3)))
+                off = M.vec("near%d" % a, 3, "pos") if shape.get("near") else M.vec("D%d" % a, 3)
+                rows.append(points[0] if a in co else M.array(points[0] - off))
             nuc = M.array(np.array(rows, dtype=object))
         else:
             nuc = M.vec("Rn", (A, 3))
